@@ -252,6 +252,8 @@ const prelude = `
 (define-fun truncR ((a Real)) Int (ite (>= a 0.0) (to_int a) (- (to_int (- a)))))
 (declare-sort Str 0)
 (declare-datatypes ((Slice 0)) (((mk-slice (s.arr Int) (s.off Int) (s.len Int)))))
+(declare-fun sidx (Slice Int) Int)
+(assert (forall ((s Slice) (i Int)) (! (= (sidx s i) (+ (s.off s) i)) :pattern ((sidx s i)))))
 (declare-fun gstr.len (Str) Int)
 (declare-fun isqrt (Int) Int)
 `
